@@ -3,4 +3,5 @@ PROPERTY Pure
 CONSTANTS
   NProc = 2
   AllowWrite = TRUE
+  AllowAlias = FALSE
   MaxCalls = 2
